@@ -281,7 +281,7 @@ def obs_index_np(obs, obs_kind):
 # ---------------------------------------------------------------------------------------
 # off-policy collection reference
 # ---------------------------------------------------------------------------------------
-def check_offpolicy(tb: Tables, script, snaps, final_s, final_t, final_tl, final_c, C, LS, num_steps):
+def check_offpolicy(tb: Tables, script, snaps, final_s, final_t, final_tl, final_c, C, LS, num_steps, trace_actions=False):
     """snaps: list (phase 0 = after reset/warm-up, phase k = after k-th iteration) of dicts with
     per-stream arrays obs [B,C(,S)], nobs, actions [B,C,...], rewards, dones, timeouts, states,
     next_states [B,C], position [B].  Returns (fails, stats); fails = (stream, row, sig, msg)."""
@@ -310,9 +310,16 @@ def check_offpolicy(tb: Tables, script, snaps, final_s, final_t, final_tl, final
             obs_seen[:, i] = obs_index_np(snaps[p]["obs"][:, i % C], tb.obs_kind)
     n_init = tb.init.sum(1)
     only_init = tb.init.argmax(1)
+    acts_seen = [None] * total
+    if trace_actions:  # real, key-driven behaviour policy: the chosen action is read back from the row that stores it
+        for i in range(total):
+            p = phase_of(i)
+            if i + C < phase_end(p):
+                raise RuntimeError("harness: trace validation needs every row visible in the snapshot of its phase")
+            acts_seen[i] = np.asarray(snaps[p]["actions"][:, i % C])
 
     # 2. reference stream
-    L = script.shape[1]
+    L = script.shape[1] if script is not None else 1
     s = np.zeros(B, dtype=int)
     t = np.zeros(B, dtype=int)
     c = np.zeros(B, dtype=int)
@@ -332,7 +339,7 @@ def check_offpolicy(tb: Tables, script, snaps, final_s, final_t, final_tl, final
         add(was_reset & ~tb.init[b, s], i, "C05/after-done/env-not-restarted" if i else "C05/reset/initial-state-not-in-init-set",
             lambda k: f"row {i}: observation acted on shows state {s[k]}, which is not an initial state {tb.init[k].tolist()} although the previous step ended the episode (or this is the first step)")
         stats["after_reset"] += int(was_reset.sum()) if i else 0
-        a_raw = script[b, c % L]
+        a_raw = acts_seen[i] if trace_actions else script[b, c % L]
         a_clip = clip_np(a_raw, tb.act_kind)
         clipped = np.any((np.asarray(a_raw, dtype=np.float64) != np.asarray(a_clip, dtype=np.float64)).reshape(B, -1), axis=1)
         stats["clipped"] += int(clipped.sum())
@@ -363,7 +370,8 @@ def check_offpolicy(tb: Tables, script, snaps, final_s, final_t, final_tl, final
     add(np.asarray(final_t) != t, total, "C05/carry/env-clock", lambda k: f"carried env clock {final_t[k]}, reference {t[k]}")
     if final_tl is not None:
         add(np.asarray(final_tl) != t, total, "C05/carry/timelimit-count", lambda k: f"carried TimeLimit count {final_tl[k]}, reference {t[k]}")
-    add(np.asarray(final_c) != c, total, "C05/carry/policy-state", lambda k: f"carried policy counter {final_c[k]}, reference {c[k]}")
+    if not trace_actions:
+        add(np.asarray(final_c) != c, total, "C05/carry/policy-state", lambda k: f"carried policy counter {final_c[k]}, reference {c[k]}")
 
     # 3. every slot of every snapshot
     for p, snap in enumerate(snaps):
@@ -404,6 +412,8 @@ def check_offpolicy(tb: Tables, script, snaps, final_s, final_t, final_tl, final
             add(d != dn, i, "C05/row/done", lambda k: f"{where}: done={d[k]}, terminal={exp['term'][k, i]} truncated={exp['trunc'][k, i]}")
             to = np.asarray(snap["timeouts"][:, slot]).astype(bool)
             add(to != exp["timeout"][:, i], i, "C05/row/timeout", lambda k: f"{where}: timeout={to[k]}, terminal={exp['term'][k, i]} truncated={exp['trunc'][k, i]} (timeout must be truncated and not terminal)")
+            if trace_actions:
+                continue
             ps = np.asarray(snap["states"][:, slot])
             add(ps != exp["c"][:, i], i, "C05/row/policy-state", lambda k: f"{where}: stored policy state {ps[k]}, the policy was in state {exp['c'][k, i]}")
             nps = np.asarray(snap["next_states"][:, slot])
